@@ -32,7 +32,7 @@ type model struct {
 
 	fields  []field           // ordinary fields in insertion order
 	single  map[string]string // special single-valued names; "" == absent
-	cookies []string          // request: "k=v" pairs; response: whole Set-Cookie values
+	cookies []string          // request: accepted pairs, serialised "k=v" or "v" (value-only); response: whole Set-Cookie values
 	trailer []string          // declared trailer names
 }
 
@@ -184,15 +184,73 @@ func (m *model) parseTrailer(v string) []string {
 	return out
 }
 
-func splitCookiePairs(v string) []string {
+// refParseReqCookies is the reference reading of a request Cookie field value
+// (RFC 6265 5.4 "cookie-string" as fasthttp documents it by behaviour on the
+// pristine tree): pairs are separated by ';' (one optional space after it is
+// skipped), a pair is name '=' value split at the first '=', a pair without '='
+// is a value-only cookie (empty name); spaces around name and value are
+// dropped, one pair of surrounding double quotes of the value is removed; a
+// pair with empty name and value is skipped; a pair whose value contains '"',
+// ';' or '\\' is rejected. Each accepted pair is returned in its serialised
+// form: "name=value", or "value" for a value-only cookie.
+func refParseReqCookies(v string) []string {
 	var out []string
-	for _, p := range strings.Split(v, ";") {
-		p = strings.Trim(p, " ")
-		if p != "" {
-			out = append(out, p)
+	for len(v) > 0 {
+		seg := v
+		if i := strings.IndexByte(v, ';'); i >= 0 {
+			seg, v = v[:i], v[i+1:]
+			v = strings.TrimPrefix(v, " ")
+		} else {
+			v = ""
+		}
+		name, val := "", seg
+		if j := strings.IndexByte(seg, '='); j >= 0 {
+			name, val = strings.Trim(seg[:j], " "), seg[j+1:]
+		}
+		val = strings.Trim(val, " ")
+		if len(val) > 1 && val[0] == '"' && val[len(val)-1] == '"' {
+			val = val[1 : len(val)-1]
+		}
+		if name == "" && val == "" {
+			continue
+		}
+		if strings.ContainsAny(val, "\";\\") {
+			continue
+		}
+		if name != "" {
+			out = append(out, name+"="+val)
+		} else {
+			out = append(out, val)
 		}
 	}
 	return out
+}
+
+// cookieValueOdd: the value holds a pair without '=' or a pair the reference
+// parser rejects or skips.
+func cookieValueOdd(v string) bool {
+	segs := 0
+	for _, p := range strings.Split(v, ";") {
+		if strings.Trim(p, " ") != "" {
+			segs++
+		}
+	}
+	got := refParseReqCookies(v)
+	if len(got) != segs {
+		return true
+	}
+	for _, e := range got {
+		if !strings.Contains(e, "=") {
+			return true
+		}
+	}
+	return false
+}
+
+// cookieValueNormalised: the value already is the serialisation of its pairs
+// (then it reads the same before and after the cookies were collected).
+func cookieValueNormalised(v string) bool {
+	return strings.Join(refParseReqCookies(v), "; ") == v
 }
 
 // set / add / del are the three mutators of the property.
@@ -204,7 +262,7 @@ func (m *model) set(name, val string, add bool) {
 		m.single[k] = v
 	case kCookie:
 		if m.req {
-			m.cookies = append(m.cookies, splitCookiePairs(v)...)
+			m.cookies = append(m.cookies, refParseReqCookies(v)...)
 		} else {
 			m.cookies = append(m.cookies, v)
 		}
